@@ -921,3 +921,202 @@ Proof.
   intros r s req regid oracle H1 H2. rewrite (unregister_refused_silent _ _ _ _ _ H1).
   rewrite (callee_del_reg_noop _ _ _ H2), d_set_callee_regs_same, r_set_dealer_same. reflexivity.
 Qed.
+
+(** ** lookup_match_agree *)
+Lemma select_callee_In : forall rg oracle c n, select_callee rg oracle = Some (c, n) -> In c (reg_callees rg).
+Proof.
+  intros rg oracle c n. unfold select_callee.
+  assert (NE : forall (l : list N) k x, option_map (fun c => (c, x)) (nth_error l k) = Some (c, n) -> In c l).
+  { intros l k x H. destruct (nth_error l k) as [y|] eqn:E; [|discriminate].
+    cbn in H. inversion H; subst. eapply nth_error_In; eauto. }
+  destruct (reg_callees rg) as [|c1 [|c2 l]] eqn:Ecs; [discriminate| |].
+  - intros H; inversion H; subst. now left.
+  - destruct (String.eqb _ "first"); [apply NE|].
+    destruct (String.eqb _ "last"); [apply NE|].
+    destruct (String.eqb _ "roundrobin"); [apply NE|].
+    destruct (String.eqb _ "random"); [apply NE|discriminate].
+Qed.
+
+(** [wamp.registration.match] answers the id of the registration [call]
+    routes a CALL of that URI to (same oracle): every INVOCATION [call] emits
+    carries that registration id and, for the first chunk of a call, goes to one
+    of that registration's callees; the answer is 0 exactly when no
+    registration matches, and then [call] answers no_such_procedure. *)
+Theorem registration_match_agrees : forall r d0 margs mkw oracle p,
+    bind (arg0 margs) as_string = Some p ->
+    forall caller req opts args kw,
+    match match_procedure (r_dealer r) p oracle with
+    | None =>
+        meta_call r "wamp.registration.match" d0 margs mkw oracle = (r, MYield [vid 0] [], None) /\
+        call (r_cfg r) (lookup r) (r_now r) (r_dealer r) caller req opts p args kw oracle =
+        CallRefused (r_dealer r) [(s_id caller, RError c_CALL req [] e_no_such_procedure [] [])]
+    | Some rg =>
+        meta_call r "wamp.registration.match" d0 margs mkw oracle = (r, MYield [vid (reg_id rg)] [], None) /\
+        forall d' callee o,
+          call (r_cfg r) (lookup r) (r_now r) (r_dealer r) caller req opts p args kw oracle = CallInvoked d' callee o ->
+          exists rcv invid det,
+            o = [(rcv, RInvocation invid (reg_id rg) det args kw)] /\
+            (cget (d_bycall (r_dealer r)) (s_id caller, req) = None -> In rcv (reg_callees rg))
+    end.
+Proof.
+  intros r d0 margs mkw oracle p Hp caller req opts args kw.
+  rewrite meta_registration_match, Hp. unfold call.
+  destruct (match_procedure (r_dealer r) p oracle) as [rg|]; [|split; reflexivity].
+  split; [reflexivity|]. intros d' callee o.
+  destruct (reg_callees rg) eqn:Ecs; [discriminate|]. rewrite <- Ecs.
+  destruct (opt_bool opts "progress" && _); [discriminate|].
+  destruct (cget (d_bycall (r_dealer r)) (s_id caller, req)) as [ikey|] eqn:B.
+  - destruct (cget (d_invs (r_dealer r)) ikey) as [inv|]; [|discriminate].
+    destruct (lookup r (inv_callee inv)) as [cs|]; [|discriminate].
+    match goal with |- context [if ?c then _ else _] => destruct c end;
+      intros H; inversion H; subst; do 3 eexists; (split; [reflexivity|discriminate]).
+  - destruct (select_callee rg oracle) as [[cid next]|] eqn:S; [|discriminate].
+    destruct (lookup r cid) as [cs|]; [|discriminate].
+    destruct (opt_bool opts "progress" && _); [discriminate|].
+    destruct (negb (reg_disclose rg) && _ && _); [discriminate|].
+    match goal with |- context [let '(_, _) := (if ?c then _ else _) in _] => destruct c end;
+      intros H; inversion H; subst; do 3 eexists; (split; [reflexivity|]); intros _; eapply select_callee_In; eauto.
+Qed.
+
+(** the events of a publication: one per allowed target of each matching subscription *)
+Definition pub_events (lk : N -> option session) (pub : session) (pubid : N) (opts : dict)
+           (topic : string) (args : list value) (kw : dict) (subs : list (subscription * bool)) : list out :=
+  let exclude_pub := match dget opts "exclude_me" with Some (VBool x) => x | _ => true end in
+  let disclose := opt_bool opts "disclose_me" in
+  flat_map (fun '((s, send_topic) : subscription * bool) =>
+              map (fun rs => (s_id rs, REvent (sub_id s) pubid
+                                         (event_details topic send_topic disclose pub (Some rs)) args kw))
+                  (sub_targets lk (s_id pub) exclude_pub (make_filter opts) s)) subs.
+
+Lemma pub_event_fold : forall lk now pub pubid opts topic args kw subs b o,
+    snd (fold_left (pub_event lk now pub pubid opts topic args kw
+                              (match dget opts "exclude_me" with Some (VBool x) => x | _ => true end)
+                              (opt_bool opts "disclose_me") (make_filter opts)) subs (b, o)) =
+    o ++ pub_events lk pub pubid opts topic args kw subs.
+Proof.
+  intros lk now pub pubid opts topic args kw subs.
+  induction subs as [|[s st] subs IH]; intros b o; cbn [fold_left].
+  - cbn. now rewrite app_nil_r.
+  - unfold pub_event at 2. cbv beta iota zeta. rewrite IH.
+    unfold pub_events. cbn [flat_map]. now rewrite app_assoc.
+Qed.
+
+Theorem publish_delivers_through_matching : forall cfg lk now b pg pub req opts topic args kw,
+    valid_uri (c_strict cfg) "" topic = true ->
+    opt_bool opts "disclose_me" && negb (c_disclose cfg) = false ->
+    snd (publish cfg lk now b pg pub req opts topic args kw) =
+    pub_events lk pub (pg + 1) opts topic args kw (matching_subs b topic)
+    ++ (if opt_bool opts "acknowledge" then [(s_id pub, RPublished req (pg + 1))] else []).
+Proof.
+  intros cfg lk now b pg pub req opts topic args kw Hv Hd. unfold publish.
+  rewrite Hv, Hd. cbn [negb].
+  pose proof (pub_event_fold lk now pub (pg + 1) opts topic args kw (matching_subs b topic) b []) as F.
+  destruct (fold_left _ (matching_subs b topic) (b, [])) as [b1 o]. cbn [snd] in *. now rewrite F.
+Qed.
+
+(** [wamp.subscription.match] answers exactly the ids of the subscriptions a
+    publication to that topic is delivered through. *)
+Theorem subscription_match_agrees : forall r d0 margs mkw oracle t,
+    bind (arg0 margs) as_string = Some t ->
+    meta_call r "wamp.subscription.match" d0 margs mkw oracle =
+    (r, MYield [ids_value (map (fun p => sub_id (fst p)) (matching_subs (r_broker r) t))] [], None) /\
+    forall pub req opts args kw,
+      valid_uri (c_strict (r_cfg r)) "" t = true ->
+      opt_bool opts "disclose_me" && negb (c_disclose (r_cfg r)) = false ->
+      snd (publish (r_cfg r) (lookup r) (r_now r) (r_broker r) (r_pubgen r) pub req opts t args kw) =
+      pub_events (lookup r) pub (r_pubgen r + 1) opts t args kw (matching_subs (r_broker r) t)
+      ++ (if opt_bool opts "acknowledge" then [(s_id pub, RPublished req (r_pubgen r + 1))] else []).
+Proof.
+  intros r d0 margs mkw oracle t Ht. split.
+  - rewrite meta_subscription_match, Ht.
+    assert (E : forall l : list (subscription * bool),
+               map (fun '((s, _) : subscription * bool) => sub_id s) l = map (fun p => sub_id (fst p)) l)
+      by (intros; apply map_ext; intros [? ?]; reflexivity).
+    rewrite E. reflexivity.
+  - intros. now apply publish_delivers_through_matching.
+Qed.
+
+(** every EVENT of a publication names one of the matching subscriptions *)
+Theorem pub_events_subs : forall lk pub pubid opts topic args kw subs rcv sub pid det a k,
+    In (rcv, REvent sub pid det a k) (pub_events lk pub pubid opts topic args kw subs) ->
+    In sub (map (fun p => sub_id (fst p)) subs) /\ pid = pubid.
+Proof.
+  intros lk pub pubid opts topic args kw subs rcv sub pid det a k H. unfold pub_events in H.
+  apply in_flat_map in H. destruct H as ([s st] & Hs & H).
+  apply in_map_iff in H. destruct H as (rs & E & _). inversion E; subst.
+  split; [|reflexivity]. apply in_map_iff. exists (s, st). auto.
+Qed.
+
+(** ** Non-vacuity witnesses for C18: a reachable realm — three sessions; 11
+    holds a subscription to "t" and a registration of "p"; 10 observes every
+    meta topic through a prefix subscription to "wamp.".  The meta procedures
+    are reached through [step] (a CALL routed to the meta session). *)
+Module C18Ex.
+  Definition cfg0 : config := mkConfig false false false true true false [] None.
+  Definition hello0 : dict :=
+    [("roles", VDict [("subscriber", VDict []); ("publisher", VDict []);
+                      ("caller", VDict []); ("callee", VDict [])])].
+  Definition r0 : realm :=
+    fst (run (init_realm cfg0)
+       [OJoin 10 false hello0; OJoin 11 false hello0; OJoin 12 false hello0;
+        OMsg 11 (CSubscribe 1 [] "t") 0; OMsg 11 (CRegister 2 [] "p") 0;
+        OMsg 10 (CSubscribe 3 [("match", vstr "prefix")] "wamp.") 0]).
+  Definition call12 (proc : string) (args : list value) (kw : dict) : op :=
+    OMsg 12 (CCall 5 [] proc args kw) 0.
+
+  Lemma counts : snd (step r0 (call12 "wamp.session.count" [] [])) = [(12, RResult 5 [] [vnat 3] [])] /\
+                 snd (step r0 (call12 "wamp.session.list" [] [])) = [(12, RResult 5 [] [VList [vid 10; vid 11; vid 12]] [])].
+  Proof. vm_compute. split; reflexivity. Qed.
+
+  (** kill 11 with a reason: RESULT to the caller, GOODBYE with that reason to
+      the target only, then (observer 10) subscription on_delete, registration
+      on_unregister before on_delete, on_leave last *)
+  Lemma kill :
+    snd (step r0 (call12 "wamp.session.kill" [vid 11] [("reason", vuri "x.y")])) =
+    [(12, RResult 5 [] [] []); (11, RGoodbye [] "x.y");
+     (10, REvent 2 10 [("topic", vuri t_sub_on_delete)] [vid 11; vid 1] []);
+     (10, REvent 2 11 [("topic", vuri t_reg_on_unregister)] [vid 11; vid 24] []);
+     (10, REvent 2 12 [("topic", vuri t_reg_on_delete)] [vid 11; vid 24] []);
+     (10, REvent 2 13 [("topic", vuri t_on_leave)] [vid 11; vstr "<gen>"; vstr "anonymous"] [])] /\
+    map s_id (r_clients (fst (step r0 (call12 "wamp.session.kill" [vid 11] [("reason", vuri "x.y")])))) = [10; 12].
+  Proof. vm_compute. split; reflexivity. Qed.
+
+  Lemma kill_hyps :
+    bind (arg0 [vid 11]) as_id = Some 11 /\ caller_of [("caller", vid 12)] <> 11 /\
+    kill_reason [("reason", vuri "x.y")] = Some ("x.y", "") /\ find_session (r_clients r0) 11 <> None.
+  Proof. vm_compute. repeat split; congruence. Qed.
+
+  (** killing oneself / an unknown session is refused *)
+  Lemma kill_self :
+    snd (step r0 (call12 "wamp.session.kill" [vid 12] [])) = [(12, RError c_CALL 5 [] e_no_such_session [] [])] /\
+    snd (step r0 (call12 "wamp.session.kill" [vid 99] [])) = [(12, RError c_CALL 5 [] e_no_such_session [] [])].
+  Proof. vm_compute. split; reflexivity. Qed.
+
+  (** registration.match answers the id the INVOCATION of a call to "p" carries *)
+  Lemma reg_match :
+    snd (step r0 (call12 "wamp.registration.match" [vstr "p"] [])) = [(12, RResult 5 [] [vid 24] [])] /\
+    snd (step r0 (call12 "p" [] [])) =
+      [(11, RInvocation 1 24 [("progress", VBool false); ("procedure", vuri "p")] [] [])] /\
+    match_procedure (r_dealer r0) "p" 0 <> None.
+  Proof. vm_compute. repeat split; congruence. Qed.
+
+  Lemma sub_match :
+    snd (step r0 (call12 "wamp.subscription.match" [vstr "t"] [])) = [(12, RResult 5 [] [VList [vid 1]] [])] /\
+    snd (step r0 (OMsg 12 (CPublish 5 [] "t" [] []) 0)) = [(11, REvent 1 10 [] [] [])].
+  Proof. vm_compute. split; reflexivity. Qed.
+
+  (** an effective UNSUBSCRIBE announces on_unsubscribe then on_delete (not to
+      the unsubscriber); one by a non-subscriber announces nothing *)
+  Lemma unsub :
+    snd (step r0 (OMsg 11 (CUnsubscribe 6 1) 0)) =
+      [(11, RUnsubscribed 6);
+       (10, REvent 2 10 [("topic", vuri t_sub_on_unsubscribe)] [vid 11; vid 1] []);
+       (10, REvent 2 11 [("topic", vuri t_sub_on_delete)] [vid 11; vid 1] [])] /\
+    step r0 (OMsg 12 (CUnsubscribe 6 1) 0) = (r0, [(12, RError c_UNSUBSCRIBE 6 [] e_no_such_subscription [] [])]).
+  Proof. vm_compute. split; reflexivity. Qed.
+
+  Lemma testament :
+    r_testaments (fst (step r0 (call12 "wamp.session.add_testament" [vstr "bye"; VList []; VDict []] []))) =
+    [(12, ([], [mkTest "bye" [] [] []]))].
+  Proof. vm_compute. reflexivity. Qed.
+End C18Ex.
